@@ -62,9 +62,8 @@ def zipLoop (sig : Bytes) : Nat → Bytes → Bool
       let b2 := b1.drop (nh + 0x1E)
       if hasPrefix b2 sig then true else zipLoop sig n b2
 
-/-- zip.go `zipContains(raw, sig, msoCheck)` -/
-def zipContains (raw sig : Bytes) (mso : Bool) : Option Bool :=
-  if raw.length < 0x1E then some false else
+/-- the walk of zip.go `zipContains` from the first entry on (everything after the guards) -/
+def zipWalk (raw sig : Bytes) (mso : Bool) : Option Bool :=
   let b := raw.drop 0x1E
   if hasPrefix b sig then some true else
   if mso && !(msoSkipFiles.any (fun sf => hasPrefix b sf)) then some false else
@@ -82,6 +81,35 @@ def zipContains (raw sig : Bytes) (mso : Bool) : Option Bool :=
       let b2 := b1.drop nh
       if hasPrefix b2 sig then some true else some (zipLoop sig 4 b2)
 
+/-- zip.go `zipContains(raw, sig, msoCheck)`: at least a whole local header, which starts with the
+    local-header signature (an archive without entries starts with the end-of-central-directory
+    record and has no entry names), then the walk -/
+def zipContains (raw sig : Bytes) (mso : Bool) : Option Bool :=
+  if raw.length < 0x1E then some false else
+  if !hasPrefix raw pk34 then some false else
+  zipWalk raw sig mso
+
+theorem zipWalk_total (raw sig : Bytes) (mso : Bool) (h : ¬ raw.length < 0x1E) : ∃ v, zipWalk raw sig mso = some v := by
+  unfold zipWalk
+  simp only
+  split
+  · exact ⟨_, rfl⟩
+  · split
+    · exact ⟨_, rfl⟩
+    · rw [getU32le_isSome (by omega)]
+      simp only
+      split
+      · exact ⟨_, rfl⟩
+      · rename_i h2
+        simp only [List.length_drop] at h2
+        split
+        · omega
+        · split
+          · exact ⟨_, rfl⟩
+          · split
+            · exact ⟨_, rfl⟩
+            · split <;> exact ⟨_, rfl⟩
+
 theorem zipContains_total (raw sig : Bytes) (mso : Bool) : ∃ v, zipContains raw sig mso = some v := by
   unfold zipContains
   by_cases h : raw.length < 0x1E
@@ -89,20 +117,24 @@ theorem zipContains_total (raw sig : Bytes) (mso : Bool) : ∃ v, zipContains ra
   · simp only [h, ↓reduceIte]
     split
     · exact ⟨_, rfl⟩
-    · split
-      · exact ⟨_, rfl⟩
-      · rw [getU32le_isSome (by omega)]
-        simp only
-        split
-        · exact ⟨_, rfl⟩
-        · rename_i h2
-          simp only [List.length_drop] at h2
-          split
-          · omega
-          · split
-            · exact ⟨_, rfl⟩
-            · split
-              · exact ⟨_, rfl⟩
-              · split <;> exact ⟨_, rfl⟩
+    · exact zipWalk_total raw sig mso h
+
+/-- a positive verdict: the guards passed and the walk found the marker -/
+theorem zipContains_true (raw sig : Bytes) (mso : Bool) (h : zipContains raw sig mso = some true) :
+    ¬ raw.length < 0x1E ∧ hasPrefix raw pk34 = true ∧ zipWalk raw sig mso = some true := by
+  unfold zipContains at h
+  by_cases h0 : raw.length < 0x1E
+  · simp [h0] at h
+  · simp only [h0, ↓reduceIte] at h
+    cases hp : hasPrefix raw pk34 with
+    | false => simp [hp] at h
+    | true => simp only [hp, Bool.not_true, Bool.false_eq_true, ↓reduceIte] at h; exact ⟨h0, rfl, h⟩
+
+/-- on input that starts with a complete local header the verdict is the walk's -/
+theorem zipContains_of_header (raw sig : Bytes) (mso : Bool) (hl : 0x1E ≤ raw.length) (hp : hasPrefix raw pk34 = true) :
+    zipContains raw sig mso = zipWalk raw sig mso := by
+  unfold zipContains
+  have : ¬ raw.length < 0x1E := by omega
+  simp [this, hp]
 
 end Mime
